@@ -82,28 +82,52 @@ ASSUMPTIONS = [
 ]
 
 
+BULK_RESET = dict(name="Reset", k=0, res="ok")
+BULK_FORMULAS = {
+    "C04": dict(invariants=["C04_BulkConservation"], properties=[], p_properties=[]),
+    "C05": dict(invariants=["C05_BulkOnePlace", "C05_BulkBatchWithinLimit"], properties=[], p_properties=[]),
+}
+BULK_CONSTS = dict(Ks=[2, 99, 101], Limit=100, MaxSent=202, MaxBatches=2, MaxBlocks=1, InitBal=500)
+BULK_HARNESS = dict(chain="eth", Token="FX", User=["u1"], MaxTx=0, MaxBatch=0, MaxCall=0, MaxEv=1, InitBal=500, KB=1, KC=1)
+BULK_MC = [dict(name="bulk", tiers=["quick", "thorough", "dev"], consts=BULK_CONSTS)]
+BULK_GEN = [dict(name="bulk", tiers=["quick", "thorough", "dev"], consts=BULK_CONSTS, harness=[BULK_HARNESS], shards=8, rej_sample=0)]
+
+
 def outgoing(pid):
     def run(work, args):
         kw = dict(pid=pid, module="Outgoing", mcmodule="OutgoingMC", pkg="outgoing", formulas=FORMULAS[pid],
                   mc_cfgs=MC, gen_cfgs=GEN, reset_op=RESET, level_note="", design_ref="5/C04-C06", assumptions=ASSUMPTIONS, recorder=RECORDER)
         rp = getattr(args, "replay", None)
-        if pid != "C06" or (rp and "Oracle" not in json.load(open(rp)).get("consts", {})):
-            return graph_property(work, args, **kw)
-        # C06 has one clause that lives in the attestation logic: the observed external height is set by
-        # OBSERVED events only (a minority vote must not move it).  Attest.tla carries that formula.
+        rmod = json.load(open(rp)).get("module") if rp else None
         import spec_attest
         akw = dict(pid=pid, module="Attest", mcmodule="AttestMC", pkg="attest",
                    formulas=dict(invariants=["C06_HeightFromObservedOnly"], properties=[], p_properties=[]),
                    mc_cfgs=[spec_attest.ATTEST_MC_HEIGHT], gen_cfgs=[spec_attest.ATTEST_GEN_HEIGHT],
                    reset_op=spec_attest.ATTEST_RESET, level_note="", design_ref="5/C06", assumptions=[], never_ok=("Unbond",))
-        if getattr(args, "replay", None):
-            return graph_property(work, args, **akw)
+        bkw = dict(pid=pid, module="OutgoingBulk", mcmodule="OutgoingBulkMC", pkg="outgoing", formulas=BULK_FORMULAS.get(pid),
+                   mc_cfgs=BULK_MC, gen_cfgs=BULK_GEN, reset_op=BULK_RESET, level_note="", design_ref="5/C04-C05", assumptions=[],
+                   test="TestReplayBulk", test_path="TestPathBulk")
+        if rp:
+            if rmod == "Attest":
+                return graph_property(work, args, **akw)
+            if rmod == "OutgoingBulk":
+                return graph_property(work, args, **bkw)
+            return graph_property(work, args, **kw)
+        # main part
         rc1, ev1, viol1, dev1 = graph_property(work, args, write=False, **kw)
         if viol1:
             return specs.finish(work, pid, ev1, ASSUMPTIONS, viol1, dev1)
-        rc2, ev2, viol2, dev2 = graph_property(work, args, write=False, **akw)
+        if pid == "C06":
+            # one clause of C06 lives in the attestation logic: the observed external height is the height of the event
+            # the QUORUM observed (a minority vote, or a vote reporting another height, must not move it): Attest.tla
+            rc2, ev2, viol2, dev2 = graph_property(work, args, write=False, **akw)
+            extra = ["the clause 'observed external height only from the observed event' is checked on Attest.tla (two oracles, a variant of the same deposit reported at another height)"]
+        else:
+            # C04/C05 at the batch size limit (100 transfers): OutgoingBulk.tla
+            rc2, ev2, viol2, dev2 = graph_property(work, args, write=False, **bkw)
+            extra = ["the batch size limit (more than 100 pending transfers) is checked on the counting specification OutgoingBulk.tla"]
         ev = specs.merge_evidence(ev1, ev2)
-        return specs.finish(work, pid, ev, ASSUMPTIONS + ["the clause 'observed external height only from observed events' is checked on Attest.tla (vote interleavings of two oracles)"], viol2, dev1 + dev2)
+        return specs.finish(work, pid, ev, ASSUMPTIONS + extra, viol2, dev1 + dev2)
     return run
 
 
